@@ -52,6 +52,9 @@ type Comp struct {
 	Params    []Param  `json:"params"`
 	HostParam string   `json:"host_param"` // "" = none
 	HostPos   int      `json:"host_pos"`   // index in the query at which host= is placed
+	// EncPath: letters of the target and the digis are written percent-encoded in the URL (bit i of the value
+	// selects the i-th letter, counted over digis then target): "%6ca5nta" is the target "la5nta"
+	EncPath uint32 `json:"enc_path,omitempty"`
 	// Dial: 0 do not dial, 1 plain Dialer registered, 2 ContextDialer registered, 3 dialer with
 	// both interfaces registered through RegisterDialer, 4 nothing registered for the scheme
 	// (a decoy is registered for another scheme).
@@ -129,10 +132,30 @@ func (c Comp) render() string {
 		b.WriteByte('@')
 	}
 	b.WriteString(c.Host)
-	for _, d := range c.Digis {
-		b.WriteString("/" + d)
+	n := uint(0)
+	enc := func(seg string) string {
+		if c.EncPath == 0 {
+			return seg
+		}
+		var sb strings.Builder
+		for i := 0; i < len(seg); i++ {
+			ch := seg[i]
+			if (ch >= 'a' && ch <= 'z') || (ch >= 'A' && ch <= 'Z') {
+				if c.EncPath&(1<<(n%32)) != 0 {
+					fmt.Fprintf(&sb, "%%%02x", ch)
+					n++
+					continue
+				}
+				n++
+			}
+			sb.WriteByte(ch)
+		}
+		return sb.String()
 	}
-	b.WriteString("/" + c.Target)
+	for _, d := range c.Digis {
+		b.WriteString("/" + enc(d))
+	}
+	b.WriteString("/" + enc(c.Target))
 	for i, p := range c.query() {
 		if i == 0 {
 			b.WriteByte('?')
@@ -790,6 +813,9 @@ func genComp(t *rapid.T) *Comp {
 		k.Digis = append(k.Digis, genCall(t, "digi"))
 	}
 	k.Target = genCall(t, "target")
+	if rapid.IntRange(0, 5).Draw(t, "enc_path") == 0 {
+		k.EncPath = rapid.Uint32Range(1, 1<<32-1).Draw(t, "enc_bits")
+	}
 	if rapid.IntRange(0, 11).Draw(t, "empty_target") == 0 {
 		k.Target = "" // the URL ends in "/": a target of zero characters (shorter than three) after the digi path
 	}
